@@ -58,7 +58,8 @@ _m("C08",
 
 _m("C04",
    "(a) In every COMMIT the index-insertion call is reachable only through the Ok arm of the content publication "
-   "(close()/linker commit, `?` or match) — a visible entry implies published content. (b) Every INDEX_INSERT emits its record "
+   "(close()/linker commit, `?` or match) — a visible entry implies published content, and that publication reports success on a failed "
+   "step only under a real existence check of the address (C03 e; with link_to C19 d). (b) Every INDEX_INSERT emits its record "
    "only through all-or-error writes (write_all / write!; never a bare write whose short count is ignored) on the append handle, "
    "on one straight path outside any loop, and the concatenation of what they write decodes to the template "
    "\"\\n{HASH_ENTRY(json)}\\t{json}\" with the same json term in both placeholders (HASH_ENTRY = SHA-256-hex role) — records "
@@ -79,8 +80,9 @@ _m("C14",
    "value whose type (transitively) owns a NamedTempFile, and no Drop impl on such a type has filesystem effects; (d) every "
    "spawn_blocking closure of the async writer that captures the temp owner returns State::Idle(Some(<that capture>)) on every "
    "path unless it consumes it (persist / explicit drop); (e) commit and close take the writer by value "
-   "(plus compile-fail witnesses for external callers in the thorough tier); (f) the rejection arms of every commit reach no "
-   "mutating filesystem effect (shared with C08): a rejected writer cannot disturb entries committed earlier.",
+   "(plus compile-fail witnesses for external callers in the thorough tier); (g) only the removal API can delete content; (h) the content file a rejected "
+   "writer leaves behind is valid (C03 f, g re-checked); (f) every commit's index insertion sits behind the integrity and size guards "
+   "and its rejection arms reach no mutating filesystem effect (the clauses of C08, re-checked): a rejected writer cannot disturb entries committed earlier.",
    "When a detached blocking task finishes and executor drop order (runtime behaviour of the executors); that NamedTempFile's "
    "Drop really unlinks (dependency model).",
    "call-graph who-may-call + zero-count effect rules + identity value-flow per closure + signature facts",
@@ -109,7 +111,8 @@ _m("C15",
    "of the public entry points, has one of the allowed shapes (cache/tmp, TempIn(cache/tmp), Content(cache,_) and its parent, "
    "Bucket(cache,_) and its parent/handle, Child(cache), or the destination explicitly given to an extraction call — for any effect kind, a hand-written copy included — / the "
    "absolutised target of a link as a symlink source only) and "
-   "is rooted at the entry point's cache-directory parameter (first path-like parameter) or explicit destination; process-"
+   "is rooted at the entry point's cache-directory parameter (first path-like parameter) or explicit destination; with link_to, writing *through* a content address (copy into it, open it for writing) is reported because the address "
+   "may be a symlink to a file of the caller's; process-"
    "global locations (env::temp_dir, NamedTempFile::new, tempfile(), current_dir) are forbidden. (b) The key reaches a path "
    "only through a cryptographic digest call (the HASH_KEY role or a digest computed in place) fed the unchanged argument; content paths depend only on (cache, integrity); every "
    "bucket is selected by the entry point's string key travelling by identity flow (no trim/case-fold/normalise); no other "
@@ -129,7 +132,8 @@ _m("C03",
    "(c) Every data write (write/write_all/flush, mapped copy_from_slice, fallocate) targets the private temp handle, a mapping of "
    "it, or an append-only bucket. (f) A staging file that is pre-allocated to the declared size is either mapped — and then trimmed to the bytes "
    "actually written before publication — or given back (set_len(0)) when the mapping fails: plain writes never go into a "
-   "pre-sized file, so no data+padding file can be published. (f3) The staged file is the sequence of accepted writes: no Seek on the staging "
+   "pre-sized file, so no data+padding file can be published. The trimming function itself skips set_len only on the 'written length is not below the mapped length' "
+   "edge. With link_to, the linkers' digest-exactness and existing-destination clauses (C19 b, d) are re-checked. (f3) The staged file is the sequence of accepted writes: no Seek on the staging "
    "file, no function receives `&mut Option<MmapMut>`, nothing take()s or replaces the mapping in place. (g) What is published matches its address: the digest/sink agreement and the address clause of C02 (a, d) are "
    "re-checked here — the digest is fed exactly the bytes the staging file accepted, and the rename target is content_path(cache, "
    "that digest). (e) close() reports success only if persist returned Ok or an existence probe of the same "
@@ -149,7 +153,9 @@ _m("C09",
    "lookup(cache,key).integrity)) + RemoveFile(Bucket(cache,key)) under remove_fully==true (arms separated by the flag's "
    "switch) and, on the remove_fully==true edge, no success return is reachable without passing the bucket removal (nor, except on the "
    "lookup's None arm, the content removal); clear = RemoveDirAll(Child(read_dir(cache))) inside a loop whose only non-error exit is "
-   "the iterator's end and in which no iteration goes round without removing its child. "
+   "the iterator's end and in which no iteration goes round without removing its child; a key removal reports success only after "
+   "appending its tombstone / unlinking the bucket, and the function that unlinks a content file has no success return that bypasses "
+   "the unlink. "
    "The key / integrity selecting the bucket / content address is the entry point's own parameter travelling by identity. "
    "(e) The appended tombstone makes the key not found for reads, metadata and listing: the lookup clauses of C05 b (last record "
    "of the key wins, a None-integrity record clears) and the listing clauses of C10 b–d (last-wins de-duplication by key in file "
@@ -162,7 +168,8 @@ _m("C09",
 _m("C07",
    "Four structural necessary conditions of lock-free serialisability, NOT the schedule-quantified behaviour: (a) an index "
    "record reaches the file through exactly one write_all call (not write!/BufWriter streaming, not several writes) of one "
-   "self-delimiting, checksummed buffer on a descriptor opened append+create (no write/truncate flags), outside any loop; (b) content becomes visible only by rename (persist) of a temp "
+   "self-delimiting, checksummed buffer on a descriptor opened append+create (no write/truncate flags), outside any loop, and the record is appended only after the content publication "
+   "succeeded (C04 a); (b) content becomes visible only by rename (persist) of a temp "
    "file uniquely created by new_in({cache}/tmp) of the same cache, or symlink — never by in-place writing or copying; "
    "(c) every directory creation is create_dir_all / DirBuilder.recursive(true), i.e. tolerant of concurrent creation; "
    "(d) the crate has no `static mut`, no thread-local and no non-Freeze static other than plain atomic scalars, so no "
@@ -202,7 +209,11 @@ _m("C13",
    "metadata(..).is_ok()/is_err() — an existence probe, which is how Path::exists() is implemented — or (iii) it matches the "
    "committed tolerated table (3 entries, each keyed by owner function, callee and discard kind, with its reason). (R4) The "
    "content writers' digest/sink agreement of C02 (a) is re-checked here: a sink that can fail after accepting a prefix must not "
-   "leave that prefix outside the digest (write_all is not a resumable sink). (R2) No "
+   "leave that prefix outside the digest (write_all is not a resumable sink). (R5) After a write on one of the runtimes' files no "
+   "success return is reachable without flush().await on the same handle (the runtimes queue the write; only flush reports its "
+   "failure). (R6) No future of a runtime filesystem function is created and dropped without being awaited. (R7) A failed publication "
+   "step is tolerated only under an existence check of the same destination that follows links (C03 e, C19 d). (R8) Only the "
+   "removal API can reach a deletion of a content file: no write / commit / read path 'cleans up' shared content after a failure. (R2) No "
    "unwrap/expect directly on the result of a fallible filesystem call unless the same result was checked before. (R3) No "
    "flatten / filter_map(Result::ok) / map_while(Result::ok) over an iterator of io::Result (ReadDir, Lines, walkdir).",
    "Which errno each call can produce, hangs, retry behaviour, 'the same call succeeds once the fault is gone', and the state of "
@@ -217,7 +228,8 @@ _m("C05",
    "early-terminating adaptor), returns the fold's result, and the fold closure's extracted decision table (all entry→return "
    "paths, labelled by the switches on `entry.key == key`, on the record's integrity and on its parse) equals the oracle: key "
    "differs → keep; key equal ∧ tombstone → clear; key equal ∧ parses → replace by *this* record (every Metadata field from the "
-   "same-named record field); key equal ∧ unparsable → keep. (c) 'Absent after removal': the removal clauses of C09 are re-checked — key removals "
+   "same-named record field); key equal ∧ unparsable → keep. (a2) Every successful keyed commit appends its record (no success return on the key-is-Some edge without "
+   "the insert call). (b0) The readers the lookups fold over take every valid record in file order (C06 re-checked). (c) 'Absent after removal': the removal clauses of C09 are re-checked — key removals "
    "append the tombstone, a full removal removes the bucket on every success path, clear removes every child. Hence the last matching valid record wins and a tombstone hides "
    "earlier ones. A structurally different algorithm is reported as UNRECOGNISED-IDIOM (stated residual risk).",
    "The history → result mapping itself for concrete histories; foreign records placed in a bucket; interleaving of sync and async "
@@ -231,8 +243,12 @@ _m("C06",
    "are elements 1 and 0 of the same TAB-split of the line, the parsed string is that fields[1], and the split has exactly two "
    "fields; (b) skip-and-continue — the only exits of the line loop are end-of-stream (leading to the success return) and a "
    "genuine read error whose Err is returned; an undecodable (InvalidData) line, a wrong field count, a checksum mismatch and a "
-   "JSON error all stay inside the loop: no rejection stops the stream; (c) the vector returned is exactly the records pushed "
-   "from the parse's Ok payload. The same oracle is applied to the sync and the async reader, hence they agree (also C12).",
+   "JSON error all stay inside the loop: no rejection stops the stream; (b0) the line stream is lines(BufReader::new(File::open(<the bucket path>))) "
+   "seen through at most a crate-local adapter that is the identity or a known-faithful wrapper — no adaptor that can end or filter "
+   "the stream; (b2) completeness — inside the loop the only ways round without collecting are those rejections (or the validating "
+   "helper's None): a line that decodes, has two fields, matches its checksum and parses is collected; the trust gate may sit in one "
+   "private validating helper; (c) the vector returned is exactly the records pushed "
+   "from the parse's Ok payload, not reordered in place; (d) every successful key removal leaves its own record (C09 lower bound). The same oracle is applied to the sync and the async reader, hence they agree (also C12).",
    "String-level facts: how lines()/split('\\t') carve up a particular damaged byte sequence, which two records a destroyed "
    "newline fuses, collision resistance of SHA-256; field agreement of returned entries is decided under C11.",
    "MIR gate-cut reachability (trust gate) + loop-exit classification + identity value flow",
@@ -241,8 +257,9 @@ _m("C06",
 _m("C10",
    "(a') Every public listing entry point returns the index listing of its cache parameter unadapted (no filter / map / take "
    "between the index and the caller). (a) The listing walks {cache}/index-v<N> — the same versioned directory BUCKET_PATH writes into — and reads every bucket "
-   "through the same validated BUCKET_READER role that lookups use (its validation is decided under C06). (b) The per-bucket "
-   "pipeline, recovered as a symbolic term, is reader → [pre-filter] → reverse → collect into a HashSet of records (first seen = "
+   "through the same validated BUCKET_READER role that lookups use (its validation is decided under C06). (e) Readers and lookups satisfy C06 / C05 b (re-checked): a lookup that sees "
+   "fewer records than the listing disagrees with it. (b) The per-bucket "
+   "pipeline, recovered as a symbolic term (in the listing or in one private helper), is reader → [pre-filter] → reverse → collect into a HashSet of records (first seen = "
    "newest wins) → filter_map(emit) → collect: the recognised last-wins idiom; dropping the reversal is reported as oldest-wins. "
    "(c) The hand-written PartialEq::eq and Hash::hash of the record type read the field `key` and nothing else. (d) The decision "
    "rows of the pre-filter (tombstone → keep; live → keep iff its integrity parses) and of the emit closure (tombstone → drop; "
@@ -264,7 +281,8 @@ _m("C11",
    "from the parse of the record's string. Builder side: each WriteOpts setter stores Some(argument) in its own field and "
    "returns self, and nothing else writes time / metadata / raw_metadata (every program-wide source of those fields is the setter, "
    "a constant None or a copy of the same field): the default time is therefore taken at the insert, i.e. at commit time; a commit "
-   "assigns or mutably borrows sri / size only on the declared-None edge. Schema side: the derived Serialize emits and the derived Deserialize accepts exactly the JSON names key, "
+   "assigns or mutably borrows sri / size only on the declared-None edge, and every successful keyed commit appends its record. The "
+   "listing's selection and field map (C10) are re-checked. Schema side: the derived Serialize emits and the derived Deserialize accepts exactly the JSON names key, "
    "integrity, time, size, metadata, raw_metadata in that order, each from its own struct field, and serde_json is instantiated "
    "with the record type on both sides. NOW = SystemTime::now().duration_since(UNIX_EPOCH).as_millis().",
    "That serde_json round-trips a particular value (128-bit integers, decimals, escapes) — a runtime property of the parser; "
@@ -353,7 +371,9 @@ _m("C12",
    "(kind, open flags, role, provenance shape relative to the entry point's cache / key / destination parameters, runtime crates "
    "normalised), (2) the set of crate / ssri error variants constructed, (3) which role functions are called with which "
    "parameter positions and which verification primitives are used, (4) how the error of each fallible call is handled "
-   "(propagated / matched / tested / discarded — so an error tolerated in one flavour only is reported). Staging details are "
+   "(propagated / matched / tested / discarded — so an error tolerated in one flavour only is reported). (5) the relative order of its mutating steps (an inversion between the copies is reported). The stream "
+   "readers, bucket readers, lookups and commits of every flavour are additionally each compared with the one oracle of C01 R3 / "
+   "C06 / C05 b / C08; a copy that deviates while a sibling does not (or deviates differently) is reported here. Staging details are "
    "normalised away (write_all ≡ write!, flush, metadata().is_ok() ≡ Path::exists()). Differences must match the committed "
    "accepted-differences tables (effects: the async keyed writer never maps memory; handling: close reports through a channel, "
    "has_content is a bool predicate — each with its reason). The per-operation decision tables, "
